@@ -362,7 +362,10 @@ def union_dumper(repo: Repo, res: CheckResult) -> None:
         if isinstance(t, ast.Compare) and isinstance(t.ops[0], ast.In):
             left = norm(t.left).replace(" ", "")
             coll = norm(t.comparators[0])
-            defs = [a.value for a in pl.body if isinstance(a, ast.Assign) and norm(a.targets[0]) == coll]
+            # everything that flows into the collection: assigned values and the arguments of element-wise insertions
+            defs = [a.value for a in ast.walk(pl) if isinstance(a, ast.Assign) and norm(a.targets[0]) == coll]
+            defs += [arg for c in ast.walk(pl) if isinstance(c, ast.Call) and isinstance(c.func, ast.Attribute)
+                     and c.func.attr in ("append", "add", "extend", "update") and norm(c.func.value) == coll for arg in c.args]
             built_typed = any("type(" in norm(dv) for dv in defs)
             typed = left in (f"(type({dn}),{dn})",) and built_typed
         if isinstance(t, ast.Call) and norm(t.func) == "any" and f"type({dn}) is type(" in norm(t):
